@@ -47,8 +47,11 @@ def extract():
                 P["init_none"].add(f)
             elif v != f:
                 raise Unsupported("__init__: " + ast.unparse(st))
-    if ast.unparse(fn["is_device_settings"].body[-1]) != "return self.device == 0":
+    r = fn["is_device_settings"].body[-1]
+    if not isinstance(r, ast.Return) or any(not isinstance(x, (ast.Expr, ast.Return)) for x in fn["is_device_settings"].body):
         raise Unsupported("is_device_settings")
+    P["isdev_expr"] = r.value
+    device_cond(r.value, "0", False)  # raises Unsupported for forms outside the translated fragment
     if ast.unparse(fn["is_baltech_naming_scheme"].body[-1]) != "return self.customer is not None":
         raise Unsupported("is_baltech_naming_scheme")
     # __str__
@@ -107,6 +110,64 @@ def extract():
     P["t1"] = template1(pats[0], maps[0])
     P["t2"] = template2(pats[1], maps[1])
     return P
+
+
+def device_cond(node, dtxt, none):
+    """SMT text of a boolean expression over self.device (value text `dtxt`, or None when `none`): comparisons with integer
+    constants, `is None` / `is not None`, truthiness, not/and/or.  Ordering comparisons of None raise TypeError in Python:
+    outside the fragment."""
+    def val(n):
+        return ast.unparse(n) == "self.device"
+
+    def tr(n, boolctx=True):
+        if isinstance(n, ast.Constant) and isinstance(n.value, bool):
+            return "true" if n.value else "false"
+        if val(n):
+            return "false" if none else "(not (= %s 0))" % dtxt
+        if isinstance(n, ast.UnaryOp) and isinstance(n.op, ast.Not):
+            return "(not %s)" % tr(n.operand)
+        if isinstance(n, ast.BoolOp):
+            # operands are boolean sub-terms (truthiness); the result is used as a boolean only
+            return "(%s %s)" % ("and" if isinstance(n.op, ast.And) else "or", " ".join(tr(v) for v in n.values))
+        if isinstance(n, ast.Compare) and len(n.ops) == 1:
+            a, op, b = n.left, n.ops[0], n.comparators[0]
+            if isinstance(b, ast.Constant) and b.value is None and val(a) and isinstance(op, (ast.Is, ast.IsNot, ast.Eq, ast.NotEq)):
+                r = "true" if none else "false"
+                return r if isinstance(op, (ast.Is, ast.Eq)) else "(not %s)" % r
+            if val(b) and isinstance(a, ast.Constant):
+                a, b = b, a
+                op = {ast.Lt: ast.Gt, ast.Gt: ast.Lt, ast.LtE: ast.GtE, ast.GtE: ast.LtE}.get(type(op), type(op))()
+            if val(a) and isinstance(b, ast.Constant) and type(b.value) is int:
+                if isinstance(op, ast.Eq):
+                    return "false" if none else "(= %s %d)" % (dtxt, b.value)
+                if isinstance(op, ast.NotEq):
+                    return "true" if none else "(not (= %s %d))" % (dtxt, b.value)
+                sym = {ast.Lt: "<", ast.LtE: "<=", ast.Gt: ">", ast.GtE: ">="}.get(type(op))
+                if sym and not none:
+                    return "(%s %s %d)" % (sym, dtxt, b.value)
+        raise Unsupported("is_device_settings: " + ast.unparse(node))
+
+    return tr(node)
+
+
+def simp_bool(text):
+    """closed boolean SMT terms are folded to "true"/"false" (z3 simplifier); others are returned unchanged"""
+    if text in ("true", "false"):
+        return text
+    import z3
+
+    try:
+        f = z3.simplify(z3.And(*z3.parse_smt2_string("(assert %s)" % text)))
+    except z3.Z3Exception:
+        return text
+    return "true" if z3.is_true(f) else "false" if z3.is_false(f) else text
+
+
+def const_cond(text):
+    r = simp_bool(text)
+    if r not in ("true", "false"):
+        raise Unsupported("is_device_settings condition not closed: " + text)
+    return r
 
 
 def _digits_group(item):
@@ -201,7 +262,9 @@ def template2(pat, mp):
 def model_print(P, c, p, d, v, name):
     """fields after __init__ mapping (None = None); returns text or ('TypeError',)"""
     if c is not None:
-        is_dev = d == 0
+        import types
+
+        is_dev = bool(eval(compile(ast.Expression(P["isdev_expr"]), "<is_device_settings>", "eval"), {"self": types.SimpleNamespace(device=d)}))
         fmt = P["fmt_dev"] if is_dev else P["fmt_gen"]
         vals = dict(customer=c, project=p, device=d, version=v)
         out = ""
@@ -442,8 +505,10 @@ def run_text_query(P, q):
                 variants.append((isdev, parts, typeerr))
             L.append("(define-fun-rec nolead1 ((s String)) String (ite (and (> (str.len s) 1) (= (str.at s 0) \"0\")) (nolead1 (str.substr s 1 (str.len s))) s))")
             L.append("(define-fun nolead2 ((s String)) String (ite (and (> (str.len s) 2) (= (str.at s 0) \"0\")) (nolead1 (str.substr s 1 (str.len s))) s))")
-            isdev_cond = "false" if dn_after or dN else "(= %s 0)" % dval
-            if isdev_cond != "false" and "isdev" in q:
+            isdev_cond = simp_bool(device_cond(P["isdev_expr"], dval, dn_after))
+            if dN and isdev_cond not in ("true", "false"):
+                isdev_cond = const_cond(isdev_cond)
+            if isdev_cond not in ("false", "true") and "isdev" in q:
                 # case split handed to separate queries (keeps the ite out of the string term)
                 L.append("(assert %s)" % (isdev_cond if q["isdev"] else "(not %s)" % isdev_cond))
                 isdev_cond = "true" if q["isdev"] else "false"
